@@ -571,6 +571,9 @@ type typeDesc struct {
 	zDec   func(b []byte, into any) error
 	// robustness seeds use these shapes (moderate sizes so that every truncation is affordable)
 	smallShapes []string
+	// derived (optional): reads state the value derives and caches from its content (a chain's
+	// key); it must depend on the content only, also after the value object was decoded into twice
+	derived func(v any) string
 }
 
 func reg[T any, PT interface {
@@ -613,8 +616,16 @@ var (
 )
 
 func types() []*typeDesc {
-	registryOnce.Do(buildRegistry)
+	registryOnce.Do(func() { buildRegistry(); setDerived() })
 	return registry
+}
+
+func setDerived() {
+	for _, t := range registry {
+		if t.name == "gpbft.ECChain" {
+			t.derived = func(v any) string { k := v.(*gpbft.ECChain).Key(); return string(k[:]) }
+		}
+	}
 }
 
 func buildRegistry() {
